@@ -455,7 +455,16 @@ func asTrailerProto(md metadata.MD) map[string]*TrailerValues {
 	result := map[string]*TrailerValues{}
 	for k, vs := range md {
 		tvs := TrailerValues{}
-		tvs.Values = append(tvs.Values, vs...)
+		if strings.HasSuffix(strings.ToLower(k), "-bin") {
+			// binary values can hold arbitrary bytes, but the trailer message
+			// carries strings (which must be valid UTF-8, or the whole trailer
+			// cannot be marshalled): base-64 encode them, like toHeaders does
+			for _, v := range vs {
+				tvs.Values = append(tvs.Values, base64.URLEncoding.EncodeToString([]byte(v)))
+			}
+		} else {
+			tvs.Values = append(tvs.Values, vs...)
+		}
 		result[k] = &tvs
 	}
 	return result
